@@ -190,7 +190,7 @@ theorem chkFixedStarted_model (sp : SpecSt) (st : St) (op : Op) (hrel : RelS sp 
       | pump now =>
         have hfired : st.startNext ≤ now := by
           rcases hwhy with h | h
-          · rw [← hrel.2.2.2.2.2.1]
+          · rw [← hrel.2.2.2.2.2.1.1]
             simp only [timerFired, isPump, Bool.true_and, Op.now] at h
             exact of_decide_eq_true h
           · simp [isAddOf] at h
@@ -249,6 +249,10 @@ theorem chkFixedStarted_model (sp : SpecSt) (st : St) (op : Op) (hrel : RelS sp 
         · simp [timerFired, isPump] at h
         · simp [isAddOf] at h
       | remove id u now =>
+        rcases hwhy with h | h
+        · simp [timerFired, isPump] at h
+        · simp [isAddOf] at h
+      | setPaused b now =>
         rcases hwhy with h | h
         · simp [timerFired, isPump] at h
         · simp [isAddOf] at h
@@ -347,6 +351,9 @@ theorem both_sh_step (st : St) (op : Op) (hop : ∀ p now, op ≠ .add p now) :
     · split
       · exact both_refl (fun _ => ⟨rfl, rfl⟩) _
       · exact both_sh_updateDt (removeDt now) (fun d => ⟨rfl, rfl⟩) _ _
+  | setPaused b now =>
+    simp only [step, setPausedOp]
+    exact both_map _ _ (fun d _ => ⟨(setQuiet_eq b d).1, (setQuiet_eq b d).2.2.2.2.2.2.2.2.1⟩)
 
 theorem addedDt_facts (st : St) (p : AddP) (now : Int) :
     (addedDt st p now).id = p.id ∧ (addedDt st p now).triggers = [] ∧
@@ -442,13 +449,16 @@ theorem unch_step (st : St) (op : Op) (hw : WFL st.dts) (hi : UnchInv st.dts) : 
         exact ⟨both_refl (fun _ => ⟨rfl, rfl⟩) _, rfl, pw_refl (stepRel_RM now).refl _⟩
       | result s te now =>
         exact ⟨both_sh_step st _ (fun _ _ h => by cases h), ids_result st s te now,
-          pw_step st (.result s te now) (stepRel_RM now) (fun a b r => r.1) hnd⟩
+          pw_stepRM st (.result s te now) hnd⟩
       | pump now =>
         exact ⟨both_sh_step st _ (fun _ _ h => by cases h), ids_pump st now,
-          pw_step st (.pump now) (stepRel_RM now) (fun a b r => r.1) hnd⟩
+          pw_stepRM st (.pump now) hnd⟩
       | remove id u now =>
         exact ⟨both_sh_step st _ (fun _ _ h => by cases h), ids_remove st id u now,
-          pw_step st (.remove id u now) (stepRel_RM now) (fun a b r => r.1) hnd⟩
+          pw_stepRM st (.remove id u now) hnd⟩
+      | setPaused b now =>
+        exact ⟨both_sh_step st _ (fun _ _ h => by cases h), ids_setq st b,
+          pw_stepRM st (.setPaused b now) hnd⟩
     obtain ⟨hsh, hids, hrm⟩ := hstep
     intro q' hq' c hc x' hx' hxid
     obtain ⟨q, hq, rq⟩ := hsh.2 q' hq'
@@ -583,10 +593,10 @@ theorem chkFlexible_model (sp : SpecSt) (st : St) (op : Op) (hrel : RelS sp st) 
   simp only [chkFlexible, postDts]
   rw [zip_map_all]
   apply all_chain _ _ _ _ (pw_pre sp st op hrel.2.2.2.2.2.2 hnd)
-    (pw_step st op (stepRel_RAll op.now) (fun a b r => r.1.1) hnd)
+    (pw_stepAll st op hnd)
   intro sd d d' _ hd hd' v r
-  obtain ⟨va, hlive⟩ := triple_facts st op hnd hd hd' v r
-  by_cases hcond : ((SDt.after (stepObs st op).2 sd).alive && !sd.fixed && sd.trigBy == 0 && sd.trig == 0) = true
+  obtain ⟨va, hlive⟩ := triple_facts sp st op hnd hd hd' v r
+  by_cases hcond : ((SDt.after sp.paused (stepObs st op).2 sd).alive && !sd.fixed && sd.trigBy == 0 && sd.trig == 0) = true
   · simp only [hcond, Bool.not_true, Bool.false_or]
     simp only [Bool.and_eq_true, Bool.not_eq_true', beq_iff_eq] at hcond
     obtain ⟨⟨⟨hal, hfx⟩, htb⟩, htr⟩ := hcond
@@ -599,7 +609,7 @@ theorem chkFlexible_model (sp : SpecSt) (st : St) (op : Op) (hrel : RelS sp st) 
     have hdf : d.fixed = false := by rw [← v.2.1]; exact hfx
     have hdtb : d.trigBy = 0 := by rw [← v.2.2.2.2.2.1]; exact htb
     have hd0 : d.trigger = 0 := by rw [← v.2.2.2.2.2.2.2.2.1 hr]; exact htr
-    have hbt : (SDt.after (stepObs st op).2 sd).trig = d'.trigger := va.2.2.2.2.2.2.2.2.1 hr'
+    have hbt : (SDt.after sp.paused (stepObs st op).2 sd).trig = d'.trigger := va.2.2.2.2.2.2.2.2.1 hr'
     -- it suffices to determine d'.trigger
     suffices hgoal : (match flexDue sp op (stepObs st op).2 sd with
         | some t => d'.trigger = t
@@ -754,7 +764,14 @@ theorem chkFlexible_model (sp : SpecSt) (st : St) (op : Op) (hrel : RelS sp st) 
       obtain ⟨d0, hd0m, h1, h2⟩ := remove_trigger st id u now d' hd'
       have : d0 = d := eq_of_id hnd hd0m hd_st (by rw [← h1, r.1.1])
       rw [h2, this]; exact hd0
-  · have : ((SDt.after (stepObs st op).2 sd).alive && !sd.fixed && sd.trigBy == 0 && sd.trig == 0) = false := by
+    | setPaused b now =>
+      simp only [flexDue]
+      have hd_st : d ∈ st.dts := hd
+      simp only [step, setPausedOp] at hd'
+      obtain ⟨y, hy, rfl⟩ := List.mem_map.mp hd'
+      have : y = d := eq_of_id hnd hy hd_st (by rw [← (setQuiet_eq b y).1, r.1.1])
+      rw [(setQuiet_eq b y).2.2.1, this]; exact hd0
+  · have : ((SDt.after sp.paused (stepObs st op).2 sd).alive && !sd.fixed && sd.trigBy == 0 && sd.trig == 0) = false := by
       simpa using hcond
     simp only [this, Bool.not_false, Bool.true_or]
 
